@@ -837,6 +837,11 @@ CERTS = {
     "uriref_fragment": lambda: fragment_cert(dfa.reference("rfc3986.abnf", "URI-reference"), dfa.reference("rfc3986.abnf", "fragment")),
     "uriref_query": lambda: query_cert(dfa.reference("rfc3986.abnf", "URI-reference"), dfa.reference("rfc3986.abnf", "query")),
     "uriref_scheme": lambda: scheme_cert(dfa.reference("rfc3986.abnf", "URI-reference"), dfa.reference("rfc3986.abnf", "scheme")),
+    # IRI family: the same facts over code points for the RFC 3987 automata
+    "iriref_hier": lambda: hier_cert(dfa.reference("rfc3987.abnf", "IRI-reference"), dfa.reference("rfc3987.abnf", "iauthority"), dfa.reference("rfc3987.abnf", "ipath"), a_name="IriRef"),
+    "iriref_fragment": lambda: fragment_cert(dfa.reference("rfc3987.abnf", "IRI-reference"), dfa.reference("rfc3987.abnf", "ifragment"), a_name="IriRef"),
+    "iriref_query": lambda: query_cert(dfa.reference("rfc3987.abnf", "IRI-reference"), dfa.reference("rfc3987.abnf", "iquery"), a_name="IriRef"),
+    "iriref_scheme": lambda: scheme_cert(dfa.reference("rfc3987.abnf", "IRI-reference"), dfa.reference("rfc3987.abnf", "scheme"), a_name="IriRef"),
 }
 
 
